@@ -214,10 +214,16 @@ func ParseCopySource(copySourceHeader string) (string, string, string, error) {
 
 	// bucket, key and version id are used as path elements by the
 	// backends: "." and ".." elements would be resolved, not named
-	for _, el := range strings.Split(copySource, "/") {
-		if el == "." || el == ".." {
+	// (empty elements are resolved away too, and the first key element
+	// must not be the gateway's own temp directory)
+	els := strings.Split(copySource, "/")
+	for i, el := range els {
+		if el == "." || el == ".." || (el == "" && i != len(els)-1) {
 			return "", "", "", s3err.GetAPIError(s3err.ErrInvalidCopySource)
 		}
+	}
+	if len(els) > 1 && els[1] == ".sgwtmp" {
+		return "", "", "", s3err.GetAPIError(s3err.ErrInvalidCopySource)
 	}
 	if strings.Contains(versionId, "/") || versionId == "." || versionId == ".." {
 		return "", "", "", s3err.GetAPIError(s3err.ErrInvalidCopySource)
